@@ -24,6 +24,19 @@
 (*        tb[o][k][w] with both, for every order o in which they were      *)
 (*        added; decimal observations (0 for values below 1e-50), ppb      *)
 (*                                                                         *)
+(*  ev = "slabs" several clouds / hazes in ONE model (with or without the  *)
+(*        band-saturating absorber, which then counts as one more slab):   *)
+(*        alone[j][k][w] transmittance with only slab j, tb[o][k][w] with  *)
+(*        all of them for every order o of addition that was run.  The     *)
+(*        sigma_xsec every slab holds after such a run is logged as an     *)
+(*        ordinary "haze" / "deck" event with the slab's own bounds.       *)
+(*                                                                         *)
+(*  every event: frame = names of the arrays the model exposes to its      *)
+(*        contributions (pressure levels, layer pressures, temperature,    *)
+(*        altitude, ..., the wavenumber grid handed to prepare()) whose    *)
+(*        contents differ after prepare() / model() from what the model    *)
+(*        computed: must be empty (ExposedGridUntouched of MC_CloudsSlabs) *)
+(*                                                                         *)
 (* Stateless stream: every event gets a verdict (set of failed clauses).   *)
 (***************************************************************************)
 EXTENDS Clouds, IOUtils, TLCExt
@@ -94,10 +107,30 @@ MixFails(e) ==
                     MixOk(DOf(e.tb[o][k][w]), DOf(e.ta[k][w]), DOf(e.th[k][w]), e.ppb)
              THEN {} ELSE {"model_transmittance_is_product"}
 
-Fails(e) == IF e.ev = "haze" THEN HazeFails(e)
-            ELSE IF e.ev = "mix" THEN MixFails(e)
-            ELSE IF e.ev = "deck" THEN DeckFails(e)
-            ELSE {"unknown_event"}
+SlabsFails(e) ==
+    LET m  == Len(e.alone)
+        n  == IF m >= 1 THEN Len(e.alone[1]) ELSE 0
+        nw == IF n >= 1 THEN Len(e.alone[1][1]) ELSE 0
+        wf == /\ m >= 2 /\ n >= 1 /\ nw >= 1 /\ Len(e.tb) >= 1
+              /\ \A j \in 1..m : /\ Len(e.alone[j]) = n
+                                 /\ \A k \in 1..n : /\ Len(e.alone[j][k]) = nw
+                                                    /\ \A w \in 1..nw : ObsOk(e.alone[j][k][w])
+              /\ \A o \in 1..Len(e.tb) : /\ Len(e.tb[o]) = n
+                                         /\ \A k \in 1..n : /\ Len(e.tb[o][k]) = nw
+                                                            /\ \A w \in 1..nw : ObsOk(e.tb[o][k][w])
+    IN  IF ~wf THEN {"slabs_wellformed"}
+        ELSE IF \A o \in 1..Len(e.tb) : \A k \in 1..n : \A w \in 1..nw :
+                    SlabsOk(DOf(e.tb[o][k][w]), e.alone, k, w, e.ppb)
+             THEN {} ELSE {"slabs_transmittance_is_product"}
+
+FrameFails(e) == IF Len(e.frame) = 0 THEN {} ELSE {"model_arrays_untouched"}
+
+Fails(e) == FrameFails(e) \cup
+            (IF e.ev = "haze" THEN HazeFails(e)
+             ELSE IF e.ev = "mix" THEN MixFails(e)
+             ELSE IF e.ev = "deck" THEN DeckFails(e)
+             ELSE IF e.ev = "slabs" THEN SlabsFails(e)
+             ELSE {"unknown_event"})
 
 Init == l = 1
 Step == /\ l <= Len(TraceLog)
